@@ -24,6 +24,7 @@ Programs with a predicted error or with '.' are assembled one expression per pro
 200 lines per program (on a disagreement the lines are assembled one by one to localise it).
 """
 import random
+import re
 import struct
 import time
 from concurrent.futures import ThreadPoolExecutor
@@ -33,6 +34,7 @@ from ..common import MachineryError
 from ..drive import asm, pmap
 from ..tlc import run_tlc, require_ok
 
+HIGH = re.compile(r"\{([0-9A-F]{2})\}")
 INFIX = ["*", "/", "%", "+", "-", "<<", ">>", "_", "&", "^", "|", "!"]
 PREFIX = ["+", "-", "~", "^C"]
 BRACKETS = ["paren", "angle", "caret"]
@@ -111,7 +113,7 @@ class Renderer:
             return ".", {}
         if cls == "sym":
             v, ok, tag = SYM_V, True, str(SYM_V)
-            modes = ["SB", "SA", "AB", "AA"]
+            modes = ["SB", "SA", "AB", "AA", "EA"]
             lit = self.spell[SYM_V][rnd.randrange(len(self.spell[SYM_V]))]
         else:
             info = self.opd[cls]
@@ -121,7 +123,7 @@ class Renderer:
                 tag = str(v) if v >= 0 else "m" + str(-v)
                 modes = ["L", "L", "L", "L", "SB", "SA"]
                 if -8 <= v <= 8:
-                    modes += ["AB", "AA"]
+                    modes += ["AB", "AA", "EA"]
                 if base0 and v in LABEL_OFFS:
                     modes += ["LB", "LB"]
             else:
@@ -138,6 +140,9 @@ class Renderer:
         if mode == "LB":
             return f"a{v}", {f"a{v}": ("label", "", "a")}
         hi, lo = DIFF_PAIRS[v][rnd.randrange(len(DIFF_PAIRS[v]))]
+        if mode == "EA":
+            # two aliases of addresses, each defined BEFORE the label it names (the labels follow the data), subtracted at the use
+            return f"< ez{hi} - ez{lo} >", {f"ez{hi}": ("before", f"ez{hi} = z{hi}", "z"), f"ez{lo}": ("before", f"ez{lo} = z{lo}", "z")}
         if mode == "AB":
             name = f"db{tag}h{hi}l{lo}"
             return name, {name: ("before", f"{name} = a{hi} - a{lo}", "a")}
@@ -384,7 +389,7 @@ class Replayer:
 
     def add_literal(self, rec, seen):
         """a literal written by Expr.tla (modes 'lit' and 'table'): '.dword <text>'"""
-        text = "".join(rec["txt"])
+        text = HIGH.sub(lambda m_: bytes([int(m_.group(1), 16)]).decode("bk"), "".join(rec["txt"]))    # {XX}: the character of byte XX
         if text in seen:
             return
         seen.add(text)
